@@ -444,6 +444,16 @@ U(id="C16.l1.end", props=["C16", "C01", "C12"], file="lzma_reader.rs", harnesses
   functions=[("src/lzma_reader.rs", "read_decode"), ("src/range_dec.rs", "normalize"), ("src/range_dec.rs", "is_stream_finished"), ("src/decoder.rs", "end_marker_detected")],
   contract="end marker with the range decoder in any state: Ok(bytes before it), stream finished, range decoder normalised (exactly the byte the coder still needs is consumed, none beyond), later reads Ok(0) without touching the source")
 
+_MTR = "read() hands out the bytes of the decoded units in order; Ok(0) only after the unit sequence is exhausted (not for an empty unit / member in the middle); zero-length read is a no-op"
+U(id="C12.mt.read", props=["C12", "C08", "C07", "C06"], file="lzip/reader_mt.rs", harnesses=["c12_mt_read_lzip_empty_unit_in_the_middle"], stubs=[], assumptions=SCHED,
+  contract_stubs=["get_next_uncompressed_chunk -> script of decoded units [2 bytes, empty, 1 byte, end] (own body: reassembly)", "scan_members -> Ok", "spawn_worker_thread -> ghost counter", "Arc::drop_slow -> leak"],
+  kind="bounded", bound="unit script of 3 units with an empty one in the middle, reads of 2 bytes",
+  functions=[("src/lzip/reader_mt.rs", "read", "Read for LZIPReaderMT")], contract=_MTR)
+U(id="C08.mt.read", props=["C08", "C07", "C06"], file="lzma2_reader_mt.rs", harnesses=["c12_mt_read_lzma2_empty_unit_in_the_middle"], stubs=[], assumptions=SCHED,
+  contract_stubs=["get_next_uncompressed_chunk -> script of decoded units [2 bytes, empty, 1 byte, end] (own body: reassembly)", "spawn_worker_thread -> ghost counter", "Arc::drop_slow -> leak"],
+  kind="bounded", bound="unit script of 3 units with an empty one in the middle, reads of 2 bytes",
+  functions=[("src/lzma2_reader_mt.rs", "read", "Read for LZMA2ReaderMT")], contract=_MTR)
+
 # ---------------------------------------------------------------------------------------- quick-tier budget
 # Harnesses kept in the quick tier per unit; every other harness of the unit runs in the thorough tier only.
 QUICK_ONLY = {
